@@ -101,14 +101,22 @@ const (
 // newer one).
 func shapeOf(ops []Op, obs []Obs) string {
 	type key struct{ a, sid int }
-	stale := map[key][]int64{} // timestamps of accepted float staleness markers
-	newer := map[key]bool{}    // ... followed by a newer sample (float or histogram) of the series
-	older := map[key]bool{}    // ... followed by an older (or equal) sample of the series
+	type marker struct {
+		t         int64
+		histPrior bool // a histogram sample of the series was accepted earlier in the same appender
+	}
+	stale := map[key][]marker{} // accepted float staleness markers
+	histSeen := map[key]bool{}
+	// follow-ups of a marker: 1 = newer sample, 2 = older-or-equal sample; "P" variants: the marker had a prior histogram in the appender
+	newer := map[key]bool{}
+	older := map[key]bool{}
+	newerP := map[key]bool{}
+	olderP := map[key]bool{}
 	var lastQ []SeriesObs
 	for i, o := range ops {
 		switch o.Op {
 		case OpNew:
-			for _, m := range []map[key]bool{newer, older} {
+			for _, m := range []map[key]bool{newer, older, newerP, olderP, histSeen} {
 				for k := range m {
 					if k.a == o.A {
 						delete(m, k)
@@ -126,29 +134,38 @@ func shapeOf(ops []Op, obs []Obs) string {
 			}
 			k := key{o.A, o.Sid}
 			if o.V.Kind == 0 && o.V.Bits == staleBits {
-				stale[k] = append(stale[k], o.T)
+				stale[k] = append(stale[k], marker{o.T, histSeen[k]})
 			} else {
 				for _, st := range stale[k] {
-					if o.T > st {
+					if o.T > st.t {
 						newer[k] = true
+						newerP[k] = newerP[k] || st.histPrior
 					} else {
 						older[k] = true
+						olderP[k] = olderP[k] || st.histPrior
 					}
+				}
+				if o.V.Kind != 0 {
+					histSeen[k] = true
 				}
 			}
 		case OpRollback:
 			lastQ = obs[i].Query
 		case OpCommit:
-			// the marker is only re-queued when the newest stored sample of the series is a histogram
+			// the marker is only re-queued when the last sample of the series is a histogram when
+			// commitFloats reaches it: the newest stored sample is one, or the same appender
+			// holds an earlier histogram sample of the series
 			res := ""
+			storedHist := map[int]bool{}
 			for _, s := range lastQ {
-				if len(s.Samples) == 0 || s.Samples[len(s.Samples)-1].V.Kind == 0 {
-					continue
-				}
-				if newer[key{o.A, s.Sid}] {
+				storedHist[s.Sid] = len(s.Samples) > 0 && s.Samples[len(s.Samples)-1].V.Kind != 0
+			}
+			for sid := 1; sid <= 8; sid++ {
+				k := key{o.A, sid}
+				if (newer[k] && storedHist[sid]) || newerP[k] {
 					return shapeStaleDeferred
 				}
-				if older[key{o.A, s.Sid}] {
+				if (older[k] && storedHist[sid]) || olderP[k] {
 					res = shapeStaleDeferredOlder
 				}
 			}
@@ -569,7 +586,7 @@ func main() {
 		}
 	}
 	// random + boundary (cases are independent: generated by a worker pool, emitted in order)
-	n := f.Count(260, 12000)
+	n := f.Count(260, 4000)
 	type res struct {
 		cfg Cfg
 		run *runner
